@@ -1,5 +1,6 @@
 CONSTANTS FlawShallowListFreeze = TRUE
  FlawSharedConstants = FALSE
+ FlawSharedLiterals = FALSE
  FlawInPlaceSort = FALSE
  FlawAppendSharesCapacity = TRUE
  FlawSortedAliasesOrdered = FALSE
